@@ -8,9 +8,12 @@
    Proved for the etcd store model for all histories (the statement is relative
    to an arbitrary reachable state, so it covers first reports, same-value
    re-reports through KeepAliveOnce and value / ttl changes alike).
-   The node half is false of the Redis store (C25_redis_node_refuted). *)
+   The node half is false of the Redis store (C25_redis_node_refuted); on
+   redis-safe histories (Spec.redis_safe: in particular node status only for
+   existing nodes) the Redis store model has the same lifetime behaviour
+   (C25_status_redis_node_partial, C25_status_redis_workload_partial). *)
 From Verif Require Import Store.KVPrims Store.Ops Store.Spec Store.EtcdModel Store.RedisModel
-  Store.EtcdProofs Store.StatusProofs.
+  Store.EtcdProofs Store.RedisProofs Store.C23Proofs Store.StatusProofs.
 
 Theorem C25_status_etcd_node : C25_etcd_node_stmt.
 Proof. exact C25_etcd_node_holds. Qed.
@@ -27,3 +30,11 @@ Print Assumptions C25_redis_workload_accept.
 Theorem C25_redis_node_refuted : C25_redis_node_refuted_stmt.
 Proof. exact C25_redis_node_refuted_holds. Qed.
 Print Assumptions C25_redis_node_refuted.
+
+Theorem C25_status_redis_node_partial : C25_redis_node_partial_stmt.
+Proof. exact C25_redis_node_partial_holds. Qed.
+Print Assumptions C25_status_redis_node_partial.
+
+Theorem C25_status_redis_workload_partial : C25_redis_workload_partial_stmt.
+Proof. exact C25_redis_workload_partial_holds. Qed.
+Print Assumptions C25_status_redis_workload_partial.
